@@ -350,3 +350,18 @@ def svd_contract(ob):
         # the record (in the orientation of the returned U) factorises `mat` itself
         a_of = recU['A'] if recU['A'] is not None else None
         ob.prove('factorises_the_argument', a_of is A, 'ghost')
+
+
+def bounded_checks(tier, seed, repo):
+    """floating-point RANGE assumption of the proof (floats are reals): bounded run-time check on scaled inputs, never counted as proved"""
+    import json, os, subprocess
+    here = os.path.dirname(os.path.dirname(os.path.abspath(__file__)))
+    py = os.path.join(here, '.venv312', 'bin', 'python')
+    if not os.path.exists(py):
+        subprocess.run(['sh', os.path.join(here, 'setup.sh')], capture_output=True, text=True, timeout=600)
+    env = dict(os.environ, PYTHONPATH=repo, PYTHONWARNINGS='ignore')
+    p = subprocess.run([py, os.path.join(here, 'runtime', 'fp_range.py'), 'C01', '--tier', tier, '--seed', str(seed)], env=env, capture_output=True, text=True, timeout=900)
+    lines = [l for l in p.stdout.splitlines() if l.startswith('RMODE-RESULT ')]
+    if not lines:
+        return [{'name': 'fp_range.C01', 'error': (p.stdout + p.stderr)[-800:], 'evaluations': 0, 'failures': []}]
+    return [json.loads(lines[-1][len('RMODE-RESULT '):])]
